@@ -662,7 +662,7 @@ func (p *parser) readToken() []byte {
 }
 
 func (p *parser) readOpArgs(o *op) (eq *Equation) {
-	if p.buf[p.pos] != '(' {
+	if len(p.buf) <= p.pos || p.buf[p.pos] != '(' {
 		p.raise("expected a %s function", o.name)
 	}
 	eq = &Equation{o: o}
